@@ -65,6 +65,8 @@ def add_subs(rng, c, stall=False):
             if subs.get(o["n"]):
                 continue                      # recovery only on a node without subscribers
         ops.append(o)
+        if o["op"] == "fail":
+            continue                          # stays glued to the ingesting op that follows
         if o["op"] == "restart" and o["n"] in subs:
             subs[o["n"]] = set()
             if rng.random() < 0.5:
@@ -82,6 +84,8 @@ def add_subs(rng, c, stall=False):
         n = rng.choice([m for m in nodes if subs[m]])
         victim = sub(n)
         pos = rng.randrange(0, len(ops) + 1)
+        if pos > 0 and ops[pos - 1]["op"] == "fail":
+            pos -= 1
         tail = ops[pos:]
         if any(o["op"] == "restart" and o.get("n") == n for o in tail):
             tail = [o for o in tail if not (o["op"] == "restart" and o.get("n") == n)]
@@ -118,6 +122,7 @@ def gen_case(rng):
     else:
         c = K.gen_D(rng)
     fam = c["fam"]
+    c = K.add_faults(rng, c, p=0.3)
     c = add_subs(rng, c, stall=rng.random() < 0.14)
     c["fam"] = fam
     return c
@@ -168,8 +173,11 @@ def c_subs(d):
     return clist(out)
 
 
+fixup = K.fixup
+
+
 def to_coq(case, r):
-    steps = ["(%s, %s, %s)" % (K.c_step(o), K.c_obs(d), c_subs(d)) for o, d in zip(case["ops"], r["outs"])]
+    steps = ["(%s, %s, %s)" % (st, K.c_obs(d), c_subs(d)) for st, d in K.paired_steps(case, r)]
     return "Case13 %s %s %s" % (clist([cN(n) for n in case["nodes"]]), cN(K.eff_T(case)), clist(steps))
 
 
@@ -218,6 +226,12 @@ def histogram(case, r):
 
 def neighbours(case, rng):
     out = K.neighbours(case, rng)
+    for i, o in enumerate(case["ops"]):
+        if o["op"] in K.INGEST:
+            c = json.loads(json.dumps(case))
+            tgt = o["n"] if o["op"] != "round" else o["j"]
+            c["ops"][i:i + 1] = [{"op": "fail", "n": tgt}, o, json.loads(json.dumps(o))]
+            out.append(c)
     for n in case["nodes"]:
         c = json.loads(json.dumps(case))
         c["ops"].insert(0, {"op": "sub", "n": n, "s": 77, "filter": False})
